@@ -42,9 +42,32 @@ def from_meaning(cls, m):
     return cls.from_value(m)
 
 
-def legit_refusal(cls, e):
-    # a DATE lexeme outside the calendar has no meaning: Date rightly refuses it with ValueError
-    return cls is models.Date and isinstance(e, ValueError)
+def date_fields(cps):
+    """Independent reading of a DATE lexeme (given as code points): (y, m, d) from the digit groups."""
+    groups = [0]
+    for c in cps:
+        if (c == 45) | (c == 47):      # '-' or '/'
+            groups.append(0)
+        else:
+            groups[-1] = groups[-1] * 10 + (c - 48)
+    return groups
+
+
+def calendar_ok(y, m, d):
+    """Gregorian validity as one boolean (no forks): what datetime.date accepts."""
+    leap = ((y % 4 == 0) & (y % 100 != 0)) | (y % 400 == 0)
+    dim = 31 - ((m == 4) | (m == 6) | (m == 9) | (m == 11)) - 3 * (m == 2) + ((m == 2) & leap)
+    return (1 <= y) & (y <= 9999) & (1 <= m) & (m <= 12) & (1 <= d) & (d <= dim)
+
+
+def legit_refusal(cls, e, cps=None):
+    """A DATE lexeme outside the calendar has no meaning: Date rightly refuses it with ValueError - and only then."""
+    if cls is not models.Date or not isinstance(e, ValueError):
+        return False
+    g = date_fields(cps)
+    if len(g) != 3:
+        return False
+    return not calendar_ok(g[0], g[1], g[2])
 
 
 def make_codec(cls, n, twin=False, value_to_text=True):
@@ -57,12 +80,18 @@ def make_codec(cls, n, twin=False, value_to_text=True):
         s = build([c0, c1, c2, c3, c4, c5, c6, c7, c8, c9], n)
         if not full(rule, s):
             return
+        cps = [c0, c1, c2, c3, c4, c5, c6, c7, c8, c9][:n]
         try:
             tok = cls.from_raw_text(s)
         except Exception as e:
-            if legit_refusal(cls, e):
+            if legit_refusal(cls, e, cps):
                 return
             raise Fail('from_raw_text refused a lexeme of its type: %r' % (e,))
+        if cls is models.Date:
+            g = date_fields(cps)
+            check(len(g) == 3 and calendar_ok(g[0], g[1], g[2]), 'Date accepted a lexeme outside the calendar', R(s))
+            v = tok.value
+            check((v.year == g[0]) & (v.month == g[1]) & (v.day == g[2]), 'Date value differs from the digits of the lexeme', R(s))
         if twin:
             raise Fail('twin reached the assertion point')
         check(tok.raw_text == s, 'from_raw_text changed the text', R(s), R(tok.raw_text))
@@ -97,8 +126,6 @@ def make_seq(cls, n1, n2, twin=False):
             m1 = meaning(tok)
             m2 = meaning(cls.from_raw_text(s2))
         except Exception as e:
-            if legit_refusal(cls, e):
-                return
             raise
         op1 = pick(op1, 0, 2)
         op2 = pick(op2, 0, 2)
